@@ -30,8 +30,19 @@ def natLt (s : String) (bound : Nat) : Option Nat := do
   let n ← s.toNat?
   if n < bound then some n else none
 
+/-- tail-recursive hex decoder (signatures of up to 65535 octets occur in the corruption runs) -/
+def hexBytes? (s : String) : Option (List Nat) :=
+  let rec go : List Char → List Nat → Option (List Nat)
+    | a :: b :: rest, acc =>
+      match hexDigit? a, hexDigit? b with
+      | some x, some y => go rest ((x * 16 + y) :: acc)
+      | _, _ => none
+    | [], acc => some acc.reverse
+    | [_], _ => none
+  go s.toList []
+
 def hexOrDash (s : String) : Option (List Nat) :=
-  if s = "-" ∨ s = "" then some [] else hexToBytes? s
+  if s = "-" ∨ s = "" then some [] else hexBytes? s
 
 def parsePathSeg (s : String) : Option PathSeg :=
   match splitColon s with
@@ -45,7 +56,7 @@ def parsePathSeg (s : String) : Option PathSeg :=
 def parseSigSeg (s : String) : Option SigSeg :=
   match splitColon s with
   | [ski, len, sig] => do
-    let ski ← hexToBytes? ski
+    let ski ← hexBytes? ski
     let len ← natLt len 65536
     let sig ← hexOrDash sig
     if ski.length = 20 ∧ sig.length = len then pure ⟨ski, sig⟩ else none
@@ -55,8 +66,8 @@ def parseKey (s : String) : Option Key :=
   match splitColon s with
   | [asn, ski, spki] => do
     let asn ← natLt asn (2^32)
-    let ski ← hexToBytes? ski
-    let spki ← hexToBytes? spki
+    let ski ← hexBytes? ski
+    let spki ← hexBytes? spki
     if ski.length = 20 ∧ spki.length = 91 then pure ⟨asn, ski, spki⟩ else none
   | _ => none
 
@@ -182,7 +193,7 @@ def step (_ : Unit) (line : String) : Unit × String :=
         | none => bad
         | some m =>
           -- shapes the oracle cannot be laid out for are decided before any verification anyway
-          if d.sigs.length ≠ d.path.length ∨ d.sigs = [] then
+          if d.sigs.length ≠ d.path.length ∨ d.sigs = [] ∨ d.alg ≠ 1 ∨ (d.nlri.afi ≠ 1 ∧ d.nlri.afi ≠ 2) then
             ((), (validate (H := List Nat) id (fun _ _ _ => VRes.error) m d T).name)
           else match buildOracle d T outs with
             | some o => ((), (validate (H := List Nat) id (oracleVerify o) m d T).name)
@@ -191,7 +202,7 @@ def step (_ : Unit) (line : String) : Unit × String :=
     | none => bad
   | "gensig" :: rest =>
     match parseData rest with
-    | some (d, [key, "O", ok, sl]) => match hexToBytes? key, natLt ok 2, natLt sl 1000 with
+    | some (d, [key, "O", ok, sl]) => match hexBytes? key, natLt ok 2, natLt sl 1000 with
       | some key, some ok, some sl =>
         let r := generateSignature (H := List Nat) (SK := Unit) id (fun _ => if ok = 1 then some () else none)
           (fun _ _ => List.replicate sl 0) (some d) (some key) true
